@@ -17,7 +17,7 @@ RULE = ("(a) object-pool histories biased to shared-tuple construction, writes, 
 	"path, written, promoted and dropped, then hundreds of fresh same-width vectors are allocated and written. (c) directed sharing scenarios "
 	"(2-3 sharers, refusal while shared, writable once partners are dropped / collected). distinct = (scenario, width / sharers, gc placement).")
 ASSUMPTIONS = [
-	"zero-length vectors all share CPython's interned empty tuple; refusals there are reported as observations, not judged",
+	"zero-length vectors all hold CPython's one empty tuple; that is not shared storage: a refusal of a (necessarily empty) write there is spurious",
 	"the verdict is behavioural: stale registrations that could not be turned into a refusal are reported in evidence only",
 ]
 EXHAUSTIVE = {"flag": False, "scope": "histories and bursts are sampled; widths 1-8 and 2-3 sharers are enumerated"}
@@ -379,6 +379,37 @@ def run_clone_writes(chk, spec):
 	if spec["pattern"] == "c" and list(v._underlying) != orig:
 		chk.fail("two live vectors never observe each other's writes", f"alias/leaked-write/copy-module-clone/{spec['how']}", f"{spec!r}: the original changed: {orig!r} -> {list(v._underlying)!r}")
 
+def run_empty_writes(chk, spec):
+	"""zero-length vectors and zero-row tables, however they came about and whatever other empty vectors are alive: the (empty) write is never refused"""
+	import warnings
+	others = [Vector([]), Vector([1, 2])[2:], Table({"p": [], "q": []})]      # other empty vectors, alive throughout
+	makers = {
+		"literal": lambda: Vector([]), "named": lambda: Vector([], name="x"), "slice": lambda: Vector([1, 2, 3])[3:], "mask": lambda: Vector([1, 2])[[False, False]], "sorted": lambda: Vector([], name="x").sort_by(),
+		"copy": lambda: Vector([]).copy(), "dropna": lambda: Vector([None, None]).dropna(), "table-column": lambda: Table({"x": [], "y": []}).cols()[0], "typed": lambda: Vector(dtype=int),
+		"table": lambda: Table({"x": [], "y": []}), "table-emptied": lambda: Table({"x": [1, 2], "y": [3, 4]})[[False, False]], "table-sorted": lambda: Table({"x": [], "y": []}).sort_by("x"), "csv-header-only": lambda: _header_only(),
+	}
+	with warnings.catch_warnings():
+		warnings.simplefilter("ignore")
+		o = call(makers[spec["maker"]])
+	chk.judged("derived", ("empty-writes", spec["maker"], spec["write"]))
+	if not o.ok:
+		chk.skip("empty-maker-unavailable")
+		return
+	x = o.value
+	if isinstance(x, Table):
+		w = call({"slice": lambda: x.__setitem__((slice(None), 0), []), "mask": lambda: x.__setitem__(([], 0), []), "view": lambda: x.cols()[0].__setitem__(slice(None), []), "attr": lambda: setattr(x, "x", [])}[spec["write"]])
+	else:
+		w = call({"slice": lambda: x.__setitem__(slice(None), []), "mask": lambda: x.__setitem__([], []), "view": lambda: x.__setitem__(slice(0, 0), []), "attr": lambda: x.__setitem__(slice(None), [])}[spec["write"]])
+	if not w.ok and isinstance(w.exc, AliasError):
+		chk.fail("a write is refused with AliasError only while another live vector really shares that storage", f"alias/spurious-refusal/zero-length/{spec['maker']}", f"{spec!r}: {w!r}")
+	del others
+
+
+def _header_only():
+	import io
+	from ..bind import serif
+	return serif.read_csv(io.StringIO("x,y\r\n", newline=""))
+
 
 def run_promote_with_holder(chk, spec):
 	"""something else (a copy-module clone, a row, a running iterator) keeps a vector's OLD storage alive while an in-place write promotes the vector; once it is
@@ -417,7 +448,7 @@ def run_promote_with_holder(chk, spec):
 
 DERIVED_OPS = ["empty-left-lshift-vector", "empty-left-lshift-tuple", "typed-empty-lshift-vector", "empty-mask-lshift-vector", "lshift-empty-vector", "copy", "slice-full", "slice-0-n", "slice-0-big", "slice-neg", "slice-step1", "mask-all", "mask-all-vector", "T", "lshift-empty", "rlshift-empty", "lshift-empty-tuple",
 	"sort", "fillna", "dropna", "pos", "cast-same", "to_object", "index-all", "table-column", "table-column-slice", "unique", "copy-of-copy", "rshift-column", "lshift-none-then-slice"]
-RUNNERS = {"clone_writes": run_clone_writes, "twins": run_twins, "table_own_columns": run_table_own_columns, "promote_with_holder": run_promote_with_holder, "table_sharing": run_table_sharing, "history": run_history, "burst": run_burst, "sharing": run_sharing, "derived": run_derived}
+RUNNERS = {"empty_writes": run_empty_writes, "clone_writes": run_clone_writes, "twins": run_twins, "table_own_columns": run_table_own_columns, "promote_with_holder": run_promote_with_holder, "table_sharing": run_table_sharing, "history": run_history, "burst": run_burst, "sharing": run_sharing, "derived": run_derived}
 
 
 def setup(chk):
@@ -439,6 +470,9 @@ def run(chk):
 		for kind in ("int", "str", "float", "object", "object-nullable"):
 			for n in (1, 2, 5):
 				chk.case("derived", {"op": op, "kind": kind, "n": n, "seed": rng.randrange(10**9)}, "derived")
+	for maker in ("literal", "named", "slice", "mask", "sorted", "copy", "dropna", "table-column", "typed", "table", "table-emptied", "table-sorted", "csv-header-only"):
+		for write in ("slice", "mask", "view", "attr"):
+			chk.case("empty_writes", {"maker": maker, "write": write}, "empty-writes")
 	for how in ("copy", "deepcopy"):
 		for n in (1, 2, 4):
 			for writes in (1, 2, 3, 5):
